@@ -9,21 +9,31 @@ package priority_queue
 
 //@ func (*Queue[V, P]).Len
 //@   trusted
-//@   ensures result >= 0
+//@   option no-alloc
+//@   ensures result == len(pq.pq)
 
 //@ func (*Queue[V, P]).Push
 //@   trusted
 //@   modifies pq.pq
 
+// Pop (container/heap.Pop: swap root and last, sift down, cut the last): the object of the old root item is returned,
+// one item leaves, the remaining items are items that were queued before (in some order). Trusted.
+//
 //@ func (*Queue[V, P]).Pop
 //@   trusted
-//@   modifies pq.pq
+//@   option no-alloc
+//@   requires len(pq.pq) > 0
+//@   modifies pq.pq, pq.pq[*]
+//@   ensures result == old(pq.pq[0].object)
+//@   ensures len(pq.pq) == old(len(pq.pq))-1 && sliceArr(pq.pq) == old(sliceArr(pq.pq))
+//@   ensures forallIn(0, len(pq.pq), func(i int) bool { return existsIn(0, old(len(pq.pq)), func(j int) bool { return pq.pq[i] == old(pq.pq[j]) }) })
 
 //@ func (*Queue[V, P]).Peek
 //@   trusted
 
 //@ func (*Queue[V, P]).PeekPriority
 //@   trusted
+//@   option no-alloc
 
 //@ func (*Queue[V, P]).Update
 //@   trusted
